@@ -75,6 +75,10 @@ def run(run):
                 sample += [c for c in cases[r::step] if c['mode']['info'] and not c['mode']['filt']][:25 if thorough else 8]
         cli_split(run, wd, sample)
         run.notes['cli_split_cases'] = len(sample)
+        # the command line (Cmd.tla): info / info -m / info -c / split over files of several messages, one of them with a damaged stop
+        # signature that metadata-only scanning does not notice; decode -m with and without the filter
+        from .. import cmd
+        cmd.run_commands(run, wd, ['info', 'split'], seed())
     finally:
         rm_workdir(wd)
     run.assumptions = ['separators do not contain the start signature (the property says so); payload decoys are inside a character field',
